@@ -32,50 +32,49 @@ Lemma utf8_lossy_valid l : utf8_valid l = true -> utf8_lossy l = l.
 Proof. unfold utf8_valid, utf8_lossy. apply utf8_lossy_valid_f. lia. Qed.
 
 (** ---- the conversions as plain recursive equations ---- *)
-Fixpoint conv_list (pc : bool) (l : list frame) : option (list lval) :=
+Fixpoint conv_list (pc : bool) (l : list frame) : conv_l :=
   match l with
-  | [] => Some []
+  | [] => LOk []
   | x :: r => match resp_to_lua pc x with
-              | CVal v => match conv_list pc r with Some t => Some (v :: t) | None => None end
-              | CErr => None
+              | CVal v => match conv_list pc r with LOk t => LOk (v :: t) | LFail m => LFail m end
+              | CErr m => LFail m
               end
   end.
 Lemma resp_to_lua_array pc l :
-  resp_to_lua pc (FArray l) = match conv_list pc l with Some vs => CVal (LTable vs) | None => CErr end.
+  resp_to_lua pc (FArray l) = match conv_list pc l with LOk vs => CVal (LTable vs) | LFail m => CErr m end.
 Proof.
   cbn [resp_to_lua].
   match goal with |- match ?f l with _ => _ end = _ => assert (E : f l = conv_list pc l) end.
   { induction l as [|x r IH]; [reflexivity|]. cbn [conv_list]. rewrite <- IH. reflexivity. }
   now rewrite E.
 Qed.
-Lemma lua_to_resp_table l :
-  lua_to_resp (LTable l) = match table_items l with [] => FNullBulk | its => FArray its end.
+Lemma lua_to_resp_table l : lua_to_resp (LTable l) = FArray (table_items l).
 Proof.
-  cbn [lua_to_resp].
-  match goal with |- match ?f l with _ => _ end = _ => assert (E : f l = table_items l) end.
-  { induction l as [|x r IH]; [reflexivity|]. cbn [table_items]. rewrite <- IH. reflexivity. }
-  now rewrite E.
+  cbn [lua_to_resp]. f_equal.
+  all: try (induction l as [|x r IH]; [reflexivity|cbn [table_items]; rewrite <- IH; reflexivity]).
 Qed.
 
-(** ---- the exact domain of the round trip RESP -> Lua -> RESP ---- *)
-(** leaves: a bulk string that lossy decoding leaves alone (every valid UTF-8 string:
-    [utf8_lossy_valid]); an integer that survives the trip through a double (every
-    |i| <= 2^53, and i64::MAX through the saturating cast) *)
-Definition bulk_ok (b : bytes) : bool := beq (utf8_lossy b) b.
+(** ---- the exact domain of the round trip RESP -> Lua -> RESP (after the repairs 38e52a4 2ecc978
+    754e125 a6ba253) ----
+    Every reply comes back unchanged except, pinned by the repository's own tests: a status reply
+    (it comes back as a bulk string: lua-status-as-bulk) and an array with a nil inside (cut there:
+    lua-nil-truncates); plus what Lua numbers cannot carry (integers beyond 2^53), the null array
+    (nil), and the RESP3 frames no command produces.  An error reply comes back as the same error
+    under redis.pcall when it carries an error code (every error the server builds does). *)
 Definition int_ok (i : Z) : bool := match lua_to_resp (lua_int i) with FInt j => j =? i | _ => false end.
-Fixpoint conv_safe_in (f : frame) : bool :=
+Definition err_ok (b : bytes) : bool := beq (fmt_err (utf8_lossy b)) b.
+Fixpoint conv_safe_in (pc : bool) (f : frame) : bool :=
   match f with
-  | FBulk b => bulk_ok b
+  | FBulk _ => true
   | FInt i => int_ok i
-  | FArray l => match l with [] => false | _ => forallb conv_safe_in l end
+  | FError b => pc && err_ok b
+  | FArray l => forallb (conv_safe_in pc) l
   | _ => false
   end.
-Definition conv_safe (f : frame) : bool := match f with FNullBulk => true | _ => conv_safe_in f end.
+Definition conv_safe (pc : bool) (f : frame) : bool := match f with FNullBulk => true | _ => conv_safe_in pc f end.
 
 Definition not_nil (v : lval) : Prop := match v with LNil => False | _ => True end.
 
-Lemma bulk_ok_valid b : utf8_valid b = true -> bulk_ok b = true.
-Proof. intros H. unfold bulk_ok. rewrite utf8_lossy_valid by exact H. apply beq_refl. Qed.
 Lemma round_double_small i : Z.abs i < two53 -> round_double i = i.
 Proof. unfold round_double. intros H. apply Z.ltb_lt in H. now rewrite H. Qed.
 Lemma int_ok_small i : Z.abs i < two53 -> int_ok i = true.
@@ -87,6 +86,9 @@ Qed.
 Lemma int_ok_max : int_ok i64_max = true. Proof. vm_compute. reflexivity. Qed.
 Lemma lua_int_not_nil i : not_nil (lua_int i).
 Proof. unfold lua_int, of_integral. destruct ((- two63 <=? round_double i) && (round_double i <? two63)); exact I. Qed.
+(** an error that starts with a code and is valid UTF-8 is kept as it is *)
+Lemma err_ok_coded b : has_error_code b = true -> utf8_valid b = true -> err_ok b = true.
+Proof. intros Hc Hv. unfold err_ok, fmt_err. rewrite (utf8_lossy_valid _ Hv), Hc. apply beq_refl. Qed.
 
 Lemma table_items_no_nil vs : length (table_items vs) = length vs -> Forall not_nil vs.
 Proof.
@@ -95,9 +97,7 @@ Proof.
     try (constructor; [exact I|apply IH; lia]).
   discriminate.
 Qed.
-Lemma table_items_le vs : (length (table_items vs) <= length vs)%nat.
-Proof. induction vs as [|v r IH]; [apply le_n|]. destruct v; cbn [table_items length]; lia. Qed.
-Lemma conv_list_length pc l vs : conv_list pc l = Some vs -> length vs = length l.
+Lemma conv_list_length pc l vs : conv_list pc l = LOk vs -> length vs = length l.
 Proof.
   revert vs; induction l as [|x r IH]; intros vs E; cbn [conv_list] in E; [now inversion E|].
   destruct (resp_to_lua pc x); [|discriminate]. destruct (conv_list pc r) as [t|]; [|discriminate].
@@ -106,27 +106,30 @@ Qed.
 
 (** forward and backward, for elements of arrays (where nil is not allowed) *)
 Lemma conv_in_exact pc : forall f,
-  conv_safe_in f = true <-> exists v, resp_to_lua pc f = CVal v /\ lua_to_resp v = f /\ not_nil v.
+  conv_safe_in pc f = true <-> exists v, resp_to_lua pc f = CVal v /\ lua_to_resp v = f /\ not_nil v.
 Proof.
   induction f using frame_ind'; cbn [conv_safe_in]; split;
     try (intros; discriminate);
     try (intros [v [E1 [E2 E3]]]; cbn [resp_to_lua] in E1; inversion E1; subst v;
-         try (elim E3); try discriminate; fail).
-  - (* FError *)
-    intros [v [E1 [E2 E3]]]. cbn [resp_to_lua] in E1. destruct pc; [|discriminate E1]. inversion E1; subst. elim E3.
+         try (elim E3); try (cbn [lua_to_resp] in E2; discriminate E2); fail).
+  - (* FError, forward *)
+    intros Hs. apply andb_prop in Hs. destruct Hs as [Hp He]. subst pc.
+    exists (LErr (fmt_err (utf8_lossy b))). cbn [resp_to_lua lua_to_resp]. split; [reflexivity|]. split; [|exact I].
+    unfold err_ok in He. apply beq_eq in He. now rewrite He.
+  - (* FError, backward *)
+    intros [v [E1 [E2 _]]]. cbn [resp_to_lua] in E1. destruct pc; [|discriminate E1]. inversion E1; subst v.
+    cbn [lua_to_resp] in E2. inversion E2 as [E]. cbn [andb]. unfold err_ok. rewrite E. rewrite E. apply beq_refl.
   - intros Hs. exists (lua_int z). cbn [resp_to_lua]. split; [reflexivity|]. split; [|apply lua_int_not_nil].
     unfold int_ok in Hs. destruct (lua_to_resp (lua_int z)); try discriminate. apply Z.eqb_eq in Hs. now subst.
   - intros [v [E1 [E2 _]]]. cbn [resp_to_lua] in E1. inversion E1; subst v. unfold int_ok. rewrite E2. apply Z.eqb_refl.
-  - intros Hs. exists (LStr (utf8_lossy b)). cbn [resp_to_lua]. split; [reflexivity|]. split; [|exact I].
-    unfold bulk_ok in Hs. apply beq_eq in Hs. cbn [lua_to_resp]. now rewrite Hs.
-  - intros [v [E1 [E2 _]]]. cbn [resp_to_lua] in E1. inversion E1; subst v. cbn [lua_to_resp] in E2.
-    inversion E2 as [E]. unfold bulk_ok. rewrite E. rewrite E. apply beq_refl.
+  - intros _. exists (LStr b). cbn [resp_to_lua lua_to_resp]. repeat split.
+  - intros _. reflexivity.
   - (* arrays, forward *)
-    intros Hs. destruct l as [|x0 r0]; [discriminate|].
-    assert (G : forall l, Forall (fun f => conv_safe_in f = true <->
+    intros Hs.
+    assert (G : forall l, Forall (fun f => conv_safe_in pc f = true <->
                    exists v, resp_to_lua pc f = CVal v /\ lua_to_resp v = f /\ not_nil v) l ->
-                forallb conv_safe_in l = true ->
-                exists vs, conv_list pc l = Some vs /\ table_items vs = l).
+                forallb (conv_safe_in pc) l = true ->
+                exists vs, conv_list pc l = LOk vs /\ table_items vs = l).
     { clear. induction l as [|x r IH]; intros Hf Hs; [exists []; split; reflexivity|].
       inversion Hf as [|? ? Hx Hr]; subst. cbn [forallb] in Hs. apply andb_prop in Hs. destruct Hs as [Hsx Hsr].
       destruct (proj1 Hx Hsx) as [v [E1 [E2 E3]]]. destruct (IH Hr Hsr) as [vs [E4 E5]].
@@ -137,14 +140,13 @@ Proof.
   - (* arrays, backward *)
     intros [v [E1 [E2 _]]]. rewrite resp_to_lua_array in E1.
     destruct (conv_list pc l) as [vs|] eqn:Ec; [|discriminate]. inversion E1; subst v.
-    rewrite lua_to_resp_table in E2.
-    destruct (table_items vs) as [|i0 its] eqn:Et; [discriminate E2|]. injection E2 as El. subst l.
+    rewrite lua_to_resp_table in E2. injection E2 as Et.
     assert (Hn : Forall not_nil vs).
     { apply table_items_no_nil. rewrite Et. symmetry. now apply (conv_list_length pc). }
     clear E1.
-    assert (G : forall l vs, Forall (fun f => conv_safe_in f = true <->
+    assert (G : forall l vs, Forall (fun f => conv_safe_in pc f = true <->
                    exists v, resp_to_lua pc f = CVal v /\ lua_to_resp v = f /\ not_nil v) l ->
-                conv_list pc l = Some vs -> Forall not_nil vs -> table_items vs = l -> forallb conv_safe_in l = true).
+                conv_list pc l = LOk vs -> Forall not_nil vs -> table_items vs = l -> forallb (conv_safe_in pc) l = true).
     { clear. induction l as [|x r IH]; intros vs Hf Ec Hn Et; [reflexivity|].
       inversion Hf as [|? ? Hx Hr]; subst. cbn [conv_list] in Ec.
       destruct (resp_to_lua pc x) as [v|] eqn:Ex; [|discriminate].
@@ -157,98 +159,117 @@ Proof.
     exact (G _ _ H Ec Hn Et).
 Qed.
 
-Lemma conv_in_roundtrip pc f : conv_safe_in f = true ->
+Lemma conv_in_roundtrip pc f : conv_safe_in pc f = true ->
   exists v, resp_to_lua pc f = CVal v /\ lua_to_resp v = f /\ not_nil v.
 Proof. apply conv_in_exact. Qed.
 
-Theorem conv_roundtrip pc f : conv_safe f = true ->
-  exists v, resp_to_lua pc f = CVal v /\ lua_to_resp v = f.
+(** the domain is exact *)
+Theorem conv_exact pc f :
+  conv_safe pc f = true <-> exists v, resp_to_lua pc f = CVal v /\ lua_to_resp v = f.
 Proof.
-  destruct f; cbn [conv_safe]; intros Hs;
-    try (destruct (conv_in_roundtrip pc _ Hs) as [v [E1 [E2 _]]]; exists v; split; assumption).
-  exists LNil. split; reflexivity.
+  split.
+  - destruct f; cbn [conv_safe]; intros Hs;
+      try (destruct (conv_in_roundtrip pc _ Hs) as [v [E1 [E2 _]]]; exists v; split; assumption).
+    exists LNil. split; reflexivity.
+  - intros [v [E1 E2]]. destruct f; cbn [conv_safe]; try reflexivity;
+      try (apply (conv_in_exact pc); exists v; repeat split; try assumption;
+           cbn [resp_to_lua] in E1; try (destruct pc); inversion E1; subst v; try exact I; try discriminate; fail).
+    + apply (conv_in_exact pc). exists v. repeat split; try assumption. cbn [resp_to_lua] in E1. inversion E1. apply lua_int_not_nil.
+    + apply (conv_in_exact pc). exists v. repeat split; try assumption. rewrite resp_to_lua_array in E1.
+      destruct (conv_list pc l); inversion E1. exact I.
 Qed.
 
-(** the domain is exact: outside [conv_safe] the reply does not come back unchanged *)
-Theorem conv_exact pc f :
-  conv_safe f = true <-> exists v, resp_to_lua pc f = CVal v /\ lua_to_resp v = f.
-Proof.
-  split; [apply conv_roundtrip|].
-  intros [v [E1 E2]]. destruct f; cbn [conv_safe]; try reflexivity;
-    try (apply (conv_in_exact pc); exists v; repeat split; try assumption;
-         cbn [resp_to_lua] in E1; try (destruct pc); inversion E1; subst v; try exact I; try discriminate; fail).
-  - apply (conv_in_exact pc). exists v. repeat split; try assumption. cbn [resp_to_lua] in E1. inversion E1. apply lua_int_not_nil.
-  - apply (conv_in_exact pc). exists v. repeat split; try assumption. rewrite resp_to_lua_array in E1.
-    destruct (conv_list pc l); inversion E1. exact I.
-Qed.
+(** under redis.call the reply of a failing command ends the script with the command's own error *)
+Lemma call_error_text b : resp_to_lua false (FError b) = CErr (fmt_err (utf8_lossy b)).
+Proof. reflexivity. Qed.
 
 (** pcall never aborts *)
-Lemma pcall_never_aborts : forall f, resp_to_lua true f <> CErr.
+Lemma pcall_never_aborts : forall f m, resp_to_lua true f <> CErr m.
 Proof.
-  induction f using frame_ind'; try (cbn [resp_to_lua]; discriminate).
+  induction f using frame_ind'; intros m; try (cbn [resp_to_lua]; discriminate).
   rewrite resp_to_lua_array.
-  assert (G : conv_list true l <> None).
-  { induction l as [|x r IH]; [discriminate|]. inversion H as [|? ? Hx Hr]; subst. cbn [conv_list].
-    destruct (resp_to_lua true x); [|now elim Hx]. specialize (IH Hr). destruct (conv_list true r); [discriminate|now elim IH]. }
-  destruct (conv_list true l); [discriminate|now elim G].
+  assert (G : forall m0, conv_list true l <> LFail m0).
+  { induction l as [|x r IH]; [discriminate|]. inversion H as [|? ? Hx Hr]; subst. cbn [conv_list]. intros m0.
+    destruct (resp_to_lua true x) as [v|mx] eqn:Ex; [|now elim (Hx mx)]. specialize (IH Hr).
+    destruct (conv_list true r) as [t|mr] eqn:Er; [discriminate|]. now elim (IH mr). }
+  destruct (conv_list true l) as [t|m1] eqn:Ec; [discriminate|]. now elim (G m1).
 Qed.
 
 (** ---- scripts ---- *)
 Lemma run_body_app now keys argv : forall pre d res rest,
   run_body now d keys argv res (pre ++ rest) =
   match run_body now d keys argv res pre with
-  | (Some res', d') => run_body now d' keys argv res' rest
-  | (None, d') => (None, d')
+  | (BOk res', d') => run_body now d' keys argv res' rest
+  | (BAbort m, d') => (BAbort m, d')
   end.
 Proof.
   induction pre as [|s pre IH]; intros d res rest; [reflexivity|].
   cbn [app run_body]. destruct s as [pc args|i].
-  - destruct (call_cmd now d pc _) as [[v|] d']; [apply IH|reflexivity].
-  - destruct (nth1 i res) as [[]|]; try reflexivity. destruct (all_strs l); [apply IH|reflexivity].
+  - destruct (call_cmd now d pc _) as [[v|m] d']; [apply IH|reflexivity].
+  - destruct (nth1 i res) as [[]|]; try reflexivity; [|apply IH]. destruct (all_strs l); [apply IH|reflexivity].
 Qed.
 
-(** a failing redis.call ends the script with an error reply; the statements after it do
-    not run; the state is the one the successful prefix (and the failing command itself) left *)
-Theorem call_aborts now d keys argv pre args rest rt res d1 d2 :
-  run_body now d keys argv [] pre = (Some res, d1) ->
-  call_cmd now d1 false (map (eval {| e_keys := keys; e_argv := argv; e_res := res |}) args) = (CErr, d2) ->
-  run_script now d keys argv {| s_body := pre ++ SCall false args :: rest; s_ret := rt |} = (r_err, d2).
+(** a failing redis.call ends the script with the command's own error reply [m]; the statements
+    after it do not run; the state is the one the successful prefix (and the failing command
+    itself) left *)
+Theorem call_aborts now d keys argv pre args rest rt res d1 d2 m :
+  run_body now d keys argv [] pre = (BOk res, d1) ->
+  call_cmd now d1 false (map (eval {| e_keys := keys; e_argv := argv; e_res := res |}) args) = (CErr m, d2) ->
+  run_script now d keys argv {| s_body := pre ++ SCall false args :: rest; s_ret := rt |} = (FError m, d2).
 Proof.
   intros Hpre Hc. unfold run_script. cbn [s_body]. rewrite run_body_app, Hpre. cbn [run_body]. now rewrite Hc.
 Qed.
+(** ... and [m] is the error the command answered: its code (WRONGTYPE, NOGROUP, ERR ...) and text *)
+Theorem call_error_is_the_commands now d nm rest b d' :
+  blocked (upper (utf8_lossy nm)) = false ->
+  exec_run now (fst (expire_before now d (upper nm) (map FBulk (nm :: rest)))) (map FBulk (nm :: rest)) None = (FError b, d') ->
+  call_cmd now d false (map LStr (nm :: rest)) = (CErr (fmt_err (utf8_lossy b)), d') /\
+  call_cmd now d true (map LStr (nm :: rest)) = (CVal (LErr (fmt_err (utf8_lossy b))), d') /\
+  (has_error_code b = true -> utf8_valid b = true -> fmt_err (utf8_lossy b) = b).
+Proof.
+  intros Hb He.
+  assert (M : marshal_args (map LStr (nm :: rest)) = Some (nm :: rest)).
+  { generalize (nm :: rest). induction l as [|x r IH]; [reflexivity|]. cbn [map marshal_args marshal_arg]. now rewrite IH. }
+  unfold call_cmd. rewrite M, Hb. cbv zeta. rewrite He. repeat split.
+  intros Hc Hv. unfold fmt_err. now rewrite (utf8_lossy_valid _ Hv), Hc.
+Qed.
 
-(** a redis.pcall never ends the script: it yields a value and the script goes on *)
+(** a redis.pcall never ends the script: it yields a value (for a failing command the table
+    {err = message}, which is an error reply when returned) and the script goes on *)
 Theorem pcall_continues now d keys argv res args rest :
   exists v d', call_cmd now d true (map (eval {| e_keys := keys; e_argv := argv; e_res := res |}) args) = (CVal v, d') /\
     run_body now d keys argv res (SCall true args :: rest) = run_body now d' keys argv (res ++ [v]) rest.
 Proof.
   cbn [run_body].
-  destruct (call_cmd now d true _) as [[v|] d'] eqn:E.
+  destruct (call_cmd now d true _) as [[v|m] d'] eqn:E.
   - exists v, d'. split; reflexivity.
   - exfalso. unfold call_cmd in E.
     destruct (marshal_args _) as [[|nm r]|]; try discriminate.
-    destruct (blocked (upper nm)); [discriminate|].
-    destruct (exec_run now _ _ None) as [rp d'']. inversion E. now apply (pcall_never_aborts rp).
+    destruct (blocked (upper (utf8_lossy nm))); [discriminate|]. cbv zeta in E.
+    destruct (exec_run now _ _ None) as [rp d'']. inversion E. now apply (pcall_never_aborts rp m).
 Qed.
+Example pcall_error_value : lua_to_resp (LErr (bs "WRONGTYPE x")) = FError (bs "WRONGTYPE x").
+Proof. reflexivity. Qed.
 
 (** a refused (blocked) command does not reach the executor and changes nothing *)
 Lemma blocked_no_effect now d pc nm rest :
-  blocked (upper nm) = true -> utf8_valid nm = true ->
+  blocked (upper (utf8_lossy nm)) = true ->
   snd (call_cmd now d pc (LStr nm :: rest)) = d.
 Proof.
-  intros Hb Hv. unfold call_cmd. cbn [marshal_args marshal_arg]. rewrite Hv.
+  intros Hb. unfold call_cmd. cbn [marshal_args marshal_arg].
   destruct (marshal_args rest); [rewrite Hb|]; reflexivity.
 Qed.
 
-(** ---- KEYS and ARGV ---- *)
+(** ---- KEYS and ARGV: the bytes as received (a6ba253) ---- *)
 Theorem keys_bytes keys argv res i k :
-  nth1 i keys = Some k -> utf8_valid k = true ->
-  eval {| e_keys := keys; e_argv := argv; e_res := res |} (EKeys i) = LStr k.
-Proof. intros E Hv. cbn [eval e_keys]. now rewrite E, utf8_lossy_valid. Qed.
+  nth1 i keys = Some k -> eval {| e_keys := keys; e_argv := argv; e_res := res |} (EKeys i) = LStr k.
+Proof. intros E. cbn [eval e_keys]. now rewrite E. Qed.
 Theorem argv_bytes keys argv res i a :
-  nth1 i argv = Some a -> utf8_valid a = true ->
-  eval {| e_keys := keys; e_argv := argv; e_res := res |} (EArgv i) = LStr a.
-Proof. intros E Hv. cbn [eval e_argv]. now rewrite E, utf8_lossy_valid. Qed.
+  nth1 i argv = Some a -> eval {| e_keys := keys; e_argv := argv; e_res := res |} (EArgv i) = LStr a.
+Proof. intros E. cbn [eval e_argv]. now rewrite E. Qed.
+(** and the arguments of redis.call reach the executor as the bytes of the Lua strings *)
+Theorem call_args_bytes en l : marshal_args (map (eval en) (map EStr l)) = Some l.
+Proof. induction l as [|a r IH]; [reflexivity|]. cbn [map eval marshal_args marshal_arg]. now rewrite IH. Qed.
 
 (** ---- one script = one step of the server ---- *)
 Lemma exec_db_eval now d parts o : exec_db now d (bs "EVAL") parts o = Some (h_eval now d parts).
@@ -328,24 +349,45 @@ Proof.
 Qed.
 
 (** ---- EVALSHA ---- *)
-(** EVALSHA of a cached script is EVAL of its source, in the database the connection has selected *)
+(** EVALSHA of a cached script is EVAL of its source, in the database the connection has selected;
+    the digest is looked up lower-cased (0f156f9) *)
 Theorem evalsha_eq_eval t s c dbi ca nm sha nk rest src :
-  upper nm = bs "EVALSHA" -> utf8_valid sha = true -> alookup sha ca = Some src ->
+  upper nm = bs "EVALSHA" -> utf8_valid sha = true -> alookup (lower sha) ca = Some src ->
   let r1 := h_evalsha t s c dbi ca (FBulk nm :: FBulk sha :: nk :: rest) in
   let r2 := normal_command t s c dbi (FBulk (bs "EVAL") :: FBulk src :: nk :: rest) None in
   fst r1 = fst r2 /\ s_dbs (snd r1) = s_dbs (snd r2) /\ s_conns (snd r1) = s_conns (snd r2).
 Proof.
-  intros Hn Hv Hc. cbv zeta. unfold h_evalsha, str_arg. rewrite Hv, Hc. unfold evalsha_db.
+  intros Hn Hv Hc. cbv zeta. unfold h_evalsha, str_arg. rewrite Hv. cbv zeta. rewrite Hc. unfold evalsha_db.
   destruct (normal_command t s c dbi _ None) as [r s1]. repeat split.
 Qed.
 
-(** ---- a script that calls one catalogue command = the direct command, converted ---- *)
-Lemma marshal_strs en l : forallb utf8_valid l = true -> marshal_args (map (eval en) (map EStr l)) = Some l.
+(** EVAL adds its script to the cache (0f156f9): afterwards EVALSHA of the digest, in lower or upper
+    case, finds the source *)
+Lemma lower_sha sha : is_sha sha = true -> lower sha = sha.
 Proof.
-  induction l as [|a r IH]; intros Hv; [reflexivity|].
-  cbn [forallb] in Hv. apply andb_prop in Hv. destruct Hv as [Ha Hr].
-  cbn [map eval marshal_args marshal_arg]. now rewrite Ha, IH.
+  unfold is_sha. intros H. apply andb_prop in H. destruct H as [_ H].
+  induction sha as [|c r IH]; [reflexivity|]. cbn [forallb] in H. apply andb_prop in H. destruct H as [Hc Hr].
+  unfold lower. cbn [map]. fold (lower r). rewrite (IH Hr). f_equal.
+  unfold lower1, is_hex_lc, is_digit in *.
+  destruct ((65 <=? c) && (c <=? 90)) eqn:E; [|reflexivity]. exfalso.
+  apply andb_prop in E. destruct E as [E1 E2]. apply Z.leb_le in E1, E2.
+  apply orb_prop in Hc. destruct Hc as [Hc|Hc]; apply andb_prop in Hc; destruct Hc as [H1 H2]; apply Z.leb_le in H1, H2; lia.
 Qed.
+Lemma alookup_aset {A} k (v : A) l : alookup k (aset k v l) = Some v.
+Proof. unfold aset. cbn [alookup]. now rewrite beq_refl. Qed.
+Theorem evalsha_after_eval ca nm src rest sha ca' :
+  utf8_valid src = true -> compile src = CompYes ->
+  existsb (fun e => beq (snd e) src) ca = false ->
+  eval_caches ca (FBulk nm :: FBulk src :: rest) (Some (FBulk sha)) = Some ca' ->
+  is_sha sha = true /\ alookup (lower sha) ca' = Some src.
+Proof.
+  intros Hv Hc Hn E. unfold eval_caches, str_arg in E. rewrite Hv, Hn, Hc in E.
+  destruct (sha_consistent ca sha src) eqn:Es; [|discriminate]. inversion E; subst ca'.
+  unfold sha_consistent in Es. apply andb_prop in Es. destruct Es as [Hs _].
+  split; [exact Hs|]. rewrite (lower_sha _ Hs). apply alookup_aset.
+Qed.
+
+(** ---- a script that calls one catalogue command = the direct command, converted ---- *)
 Lemma catalogue_not_blocked : forallb (fun n => negb (blocked n)) Exec.catalogue = true.
 Proof. vm_compute. reflexivity. Qed.
 Lemma in_catalogue_not_blocked n : In n Exec.catalogue -> blocked n = false.
@@ -361,20 +403,21 @@ Definition single_call (pc : bool) (l : list bytes) : script :=
     returned: the dataset effect is that of the directly sent command, the reply is the
     direct reply pushed through the two conversions (an error: abort under call, nil under pcall) *)
 Theorem call_same_as_direct now d keys argv pc nm args r d' :
-  forallb utf8_valid (nm :: args) = true ->
   In (upper nm) Exec.catalogue ->
   (* the database both paths work on: after the lazy expiry that precedes every command *)
   let d0 := fst (expire_before now d (upper nm) (ExecFacts.bulks (nm :: args))) in
   ExecFacts.known now d0 (upper nm) args = false ->
   exec_db now d0 (upper nm) (ExecFacts.bulks (nm :: args)) None = Some (r, d') ->
   run_script now d keys argv (single_call pc (nm :: args)) =
-    (match resp_to_lua pc r with CVal v => lua_to_resp v | CErr => r_err end, d').
+    (match resp_to_lua pc r with CVal v => lua_to_resp v | CErr m => FError m end, d').
 Proof.
-  intros Hv Hin d0 Hk Hd.
-  pose proof (ExecFacts.parity now d0 nm args Hv Hin Hk) as P. rewrite Hd in P. inversion P as [P'].
+  intros Hin d0 Hk Hd.
+  pose proof (ExecFacts.parity now d0 nm args Hin Hk) as P. rewrite Hd in P. inversion P as [P'].
   unfold run_script, single_call. cbn [s_body s_ret run_body].
-  unfold call_cmd. rewrite (marshal_strs _ _ Hv). rewrite (in_catalogue_not_blocked _ Hin).
+  unfold call_cmd. rewrite (call_args_bytes _ (nm :: args)).
+  rewrite (utf8_lossy_valid _ (ExecFacts.catalogue_name_valid nm Hin)).
+  rewrite (in_catalogue_not_blocked _ Hin).
   subst d0. unfold ExecFacts.bulks in P'. cbn [map] in P' |- *. cbv zeta. rewrite P'.
-  destruct (resp_to_lua pc r) as [v|]; [|reflexivity].
+  destruct (resp_to_lua pc r) as [v|m]; [|reflexivity].
   cbn [app eval e_res nth1]. reflexivity.
 Qed.
